@@ -32,4 +32,725 @@ def okFlow (d : Nat) : Flow → Prop
 /-- every function body is well scoped on its own -/
 def okFuncs (fs : List Cmd) : Prop := ∀ body ∈ fs, ws 0 body = true
 
+/-! ## basic facts about the abstraction -/
+
+@[simp] theorem absB_pending (d : Nat) (s : St) (f : Flow) : (absB d s f).pending = !f.isNormal := by
+  cases f <;> simp [absB, B.pending, brkOf, contOf, Flow.isNormal]
+
+@[simp] theorem absB_jumping (d : Nat) (s : St) (f : Flow) : (absB d s f).jumping = f.isRetOrExit := by
+  cases f <;> simp [absB, B.jumping, Flow.isRetOrExit]
+
+theorem absB_normal_pending (d : Nat) (s : St) : (absB d s .normal).pending = false := by
+  simp [Flow.isNormal]
+
+@[simp] theorem absB_st (d : Nat) (s : St) (f : Flow) : (absB d s f).st = s := rfl
+@[simp] theorem absB_level (d : Nat) (s : St) (f : Flow) : (absB d s f).level = d := rfl
+@[simp] theorem absB_setLast (d : Nat) (s : St) (f : Flow) (v : Nat) :
+    (absB d s f).setLast v = absB d { s with last := v } f := rfl
+
+theorem last_eta (s : St) (c : Nat) (h : s.last = c) : { s with last := c } = s := by
+  cases s; simp_all
+
+theorem errexitCheck_pending (sup : Bool) (b : B) (h : b.pending = true) : B.errexitCheck sup b = b := by
+  simp [B.errexitCheck, h]
+
+theorem post_spec {sup : Bool} {s s' : St} {r r' : Res} (h : post sup s r = (s', r'))
+    (L d : Nat) (hok : okFlow d r.flow) :
+    B.errexitCheck sup (absB L { s with last := r.code } r.flow) = absB L s' r'.flow
+      ∧ okFlow d r'.flow ∧ s'.last = r'.code := by
+  unfold post at h
+  unfold B.errexitCheck
+  rcases r with ⟨code, flow⟩
+  cases flow <;> cases sup <;> cases he : s.errexit <;> by_cases hc : code = 0 <;>
+    simp_all [Flow.isNormal, okFlow] <;>
+    (obtain ⟨rfl, rfl⟩ := h; simp_all [absB, brkOf, contOf]; try decide)
+
+theorem post_spec' {sup : Bool} {s s' : St} {r r' : Res} (h : post sup s r = (s', r'))
+    (hl : s.last = r.code) (L d : Nat) (hok : okFlow d r.flow) :
+    B.errexitCheck sup (absB L s r.flow) = absB L s' r'.flow
+      ∧ okFlow d r'.flow ∧ s'.last = r'.code := by
+  have := post_spec h L d hok
+  rwa [last_eta s r.code hl] at this
+
+theorem post_not_normal {sup : Bool} {s : St} {r : Res} (h : r.flow.isNormal = false) :
+    post sup s r = ({ s with last := r.code }, r) := by
+  simp [post, h]
+
+theorem jumpViol_ok {d : Nat} {n : Option Int} (h : jumpViol d n = []) :
+    0 < n.getD 1 ∧ (n.getD 1).toNat ≤ d := by
+  unfold jumpViol at h
+  simp only at h
+  split at h
+  · simp at h
+  · split at h
+    · omega
+    · simp at h
+
+theorem spec_pending {fuel fs sup c} {b : B} (h : b.pending = true) : spec fuel fs sup c b = some b := by
+  rw [spec.eq_def]; simp [h]
+theorem specList_pending {fuel fs sup cs} {b : B} (h : b.pending = true) : specList fuel fs sup cs b = some b := by
+  rw [specList.eq_def]; simp [h]
+theorem specAO_pending {fuel fs sup aos} {b : B} (h : b.pending = true) : specAO fuel fs sup aos b = some b := by
+  rw [specAO.eq_def]; simp [h]
+theorem specArms_pending {fuel fs sup arms force v} {b : B} (h : b.pending = true) :
+    specArms fuel fs sup arms force b v = some b := by
+  rw [specArms.eq_def]; simp [h]
+
+/-! ## the six simulation statements (level `L` of bash may exceed the guard depth `d`) -/
+
+def PExec (fuel : Nat) : Prop :=
+  ∀ fs sup c s s' r d L, okFuncs fs → viol d c = [] → d ≤ L →
+    exec fuel fs sup c s = some (s', r) →
+    spec fuel fs sup c (absB L s .normal) = some (absB L s' r.flow) ∧ okFlow d r.flow ∧ s'.last = r.code
+
+def PList (fuel : Nat) : Prop :=
+  ∀ fs sup cs s s' r d L, okFuncs fs → violList d cs = [] → d ≤ L →
+    execList fuel fs sup cs s = some (s', r) →
+    specList fuel fs sup cs (absB L s .normal) = some (absB L s' r.flow) ∧ okFlow d r.flow ∧ s'.last = r.code
+
+def PAO (fuel : Nat) : Prop :=
+  ∀ fs sup aos s s' r r' d L, okFuncs fs → violAO d aos = [] → d ≤ L →
+    s.last = r.code → okFlow d r.flow →
+    execAO fuel fs sup aos s r = some (s', r') →
+    specAO fuel fs sup aos (absB L s r.flow) = some (absB L s' r'.flow) ∧ okFlow d r'.flow ∧ s'.last = r'.code
+
+def PW (fuel : Nat) : Prop :=
+  ∀ fs sup isUntil cond body s s' r r' d L, okFuncs fs → viol 0 cond = [] → viol (d + 1) body = [] → d ≤ L →
+    r.flow = .normal →
+    loopW fuel fs sup isUntil cond body s r = some (s', r') →
+    specW fuel fs sup isUntil cond body (absB (L + 1) s .normal) r.code
+        = some (absB (L + 1) { s' with last := r'.code } r'.flow) ∧ okFlow d r'.flow
+
+def PF (fuel : Nat) : Prop :=
+  ∀ fs sup n body s s' r r' d L, okFuncs fs → viol (d + 1) body = [] → d ≤ L →
+    r.flow = .normal →
+    loopF fuel fs sup n body s r = some (s', r') →
+    specF fuel fs sup n body (absB (L + 1) s .normal) r.code
+        = some (absB (L + 1) { s' with last := r'.code } r'.flow) ∧ okFlow d r'.flow
+
+def PArms (fuel : Nat) : Prop :=
+  ∀ fs sup arms force s s' r r' d L, okFuncs fs → violArms d arms = [] → d ≤ L →
+    r.flow = .normal →
+    execArms fuel fs sup arms force s r = some (s', r') →
+    specArms fuel fs sup arms force (absB L s .normal) r.code
+        = some (absB L { s' with last := r'.code } r'.flow) ∧ okFlow d r'.flow
+
+theorem step_list (fuel : Nat) (ihE : PExec fuel) (ihL : PList fuel) : PList (fuel + 1) := by
+  intro fs sup cs s s' r d L hfs hws hdL h
+  cases cs with
+  | nil =>
+    simp only [execList, Option.some.injEq, Prod.mk.injEq] at h
+    obtain ⟨rfl, rfl⟩ := h
+    simp only [specList, absB_normal_pending, Bool.false_eq_true, ↓reduceIte, absB_setLast]
+    simp [okFlow]
+  | cons c rest =>
+    simp only [violList, List.append_eq_nil_iff] at hws
+    simp only [execList] at h
+    split at h
+    · simp at h
+    · rename_i s1 r1 he
+      obtain ⟨e1, ok1, l1⟩ := ihE fs sup c s s1 r1 d L hfs hws.1 hdL he
+      simp only [specList, absB_normal_pending, Bool.false_eq_true, ↓reduceIte, e1]
+      rw [last_eta s1 r1.code l1] at h
+      cases hn : r1.flow.isNormal with
+      | false =>
+        simp only [hn, Bool.not_false, ↓reduceIte, Option.some.injEq, Prod.mk.injEq] at h
+        obtain ⟨rfl, rfl⟩ := h
+        refine ⟨?_, ok1, l1⟩
+        cases rest with
+        | nil => rfl
+        | cons c2 rest2 =>
+          simp only
+          exact specList_pending (by simp [hn])
+      | true =>
+        have hf : r1.flow = .normal := by cases hf : r1.flow <;> simp_all [Flow.isNormal]
+        simp only [hn, Bool.not_true, Bool.false_eq_true, ↓reduceIte] at h
+        cases rest with
+        | nil =>
+          simp only [Option.some.injEq, Prod.mk.injEq] at h
+          obtain ⟨rfl, rfl⟩ := h
+          exact ⟨rfl, ok1, l1⟩
+        | cons c2 rest2 =>
+          simp only at h ⊢
+          rw [hf]
+          exact ihL fs sup _ s1 s' r d L hfs hws.2 hdL h
+
+
+theorem errexitCheck_zero (sup : Bool) (b : B) (h : b.st.last = 0) : B.errexitCheck sup b = b := by
+  simp [B.errexitCheck, h]
+
+theorem postC_spec {s s' : St} {r r' : Res} (h : postC s r = (s', r'))
+    (L d : Nat) (hok : okFlow d r.flow) :
+    absB L { s with last := r.code } r.flow = absB L s' r'.flow ∧ okFlow d r'.flow ∧ s'.last = r'.code := by
+  simp only [postC, Prod.mk.injEq] at h
+  obtain ⟨rfl, rfl⟩ := h
+  exact ⟨rfl, hok, rfl⟩
+
+theorem postC_spec' {s s' : St} {r r' : Res} (h : postC s r = (s', r'))
+    (hl : s.last = r.code) (L d : Nat) (hok : okFlow d r.flow) :
+    absB L s r.flow = absB L s' r'.flow ∧ okFlow d r'.flow ∧ s'.last = r'.code := by
+  have := postC_spec h L d hok
+  rwa [last_eta s r.code hl] at this
+
+theorem isNormal_eq {f : Flow} (h : f.isNormal = true) : f = .normal := by
+  cases f <;> simp_all [Flow.isNormal]
+
+theorem ws_of_mem {fs : List Cmd} (hfs : okFuncs fs) {f : Nat} {body : Cmd} (h : fs[f]? = some body) :
+    viol 0 body = [] := by
+  have := hfs body (List.mem_of_getElem? h)
+  simpa [ws, List.isEmpty_iff] using this
+
+theorem step_exec (fuel : Nat) (ihE : PExec fuel) (ihL : PList fuel) (ihA : PAO fuel) (ihW : PW fuel)
+    (ihF : PF fuel) (ihC : PArms fuel) : PExec (fuel + 1) := by
+  intro fs sup c s s' r d L hfs hws hdL h
+  cases c with
+  | leaf id codes =>
+    simp only [exec, Option.some.injEq] at h
+    simp only [spec, absB_normal_pending, Bool.false_eq_true, ↓reduceIte]
+    obtain ⟨e, ok, l⟩ := post_spec h L d trivial
+    exact ⟨congrArg some e, ok, l⟩
+  | probe =>
+    simp only [exec, post, Option.some.injEq] at h
+    simp [Flow.isNormal] at h
+    obtain ⟨rfl, rfl⟩ := h
+    simp only [spec, absB_normal_pending, Bool.false_eq_true, ↓reduceIte]
+    and_intros <;> first | rfl | trivial
+  | seq cs =>
+    simp only [exec] at h
+    simp only [viol] at hws
+    simp only [spec, absB_normal_pending, Bool.false_eq_true, ↓reduceIte]
+    exact ihL fs sup cs s s' r d L hfs hws hdL h
+  | andOr first rest =>
+    simp only [viol, List.append_eq_nil_iff] at hws
+    cases rest <;>
+    · simp only [exec] at h
+      split at h
+      · simp at h
+      · rename_i s1 r1 he
+        obtain ⟨e1, ok1, l1⟩ := ihE fs _ first s s1 r1 d L hfs hws.1 hdL he
+        simp only [spec, absB_normal_pending, Bool.false_eq_true, ↓reduceIte, e1]
+        exact ihA fs sup _ s1 s' r1 r d L hfs hws.2 hdL l1 ok1 h
+  | bang c =>
+    simp only [viol] at hws
+    simp only [exec] at h
+    split at h
+    · simp at h
+    · rename_i s1 r1 he
+      obtain ⟨e1, ok1, l1⟩ := ihE fs true c s s1 r1 d L hfs hws hdL he
+      simp only [spec, absB_normal_pending, Bool.false_eq_true, ↓reduceIte, e1, absB_jumping, absB_st,
+        absB_setLast]
+      simp only [Option.some.injEq, Prod.mk.injEq] at h
+      obtain ⟨rfl, rfl⟩ := h
+      cases hj : r1.flow.isRetOrExit with
+      | true =>
+        simp only [↓reduceIte]
+        rw [last_eta s1 r1.code l1]
+        and_intros <;> first | rfl | trivial | assumption
+      | false =>
+        simp only [Bool.false_eq_true, ↓reduceIte, l1]
+        and_intros <;> first | rfl | trivial | assumption
+  | if1 cond thn =>
+    simp only [viol, List.append_eq_nil_iff] at hws
+    simp only [exec] at h
+    split at h
+    · simp at h
+    · rename_i s1 r1 he
+      obtain ⟨e1, ok1, l1⟩ := ihE fs true cond s s1 r1 d L hfs hws.1 hdL he
+      simp only [spec, absB_normal_pending, Bool.false_eq_true, ↓reduceIte, e1]
+      cases hn : r1.flow.isNormal with
+      | false =>
+        simp only [hn, Bool.not_false, ↓reduceIte] at h
+        rw [postC, last_eta s1 _ l1] at h
+        simp only [Option.some.injEq, Prod.mk.injEq] at h
+        obtain ⟨rfl, rfl⟩ := h
+        have hp : (absB L s1 r1.flow).pending = true := by simp [hn]
+        simp only [spec_pending hp, hp, ↓reduceIte, ite_self]
+        and_intros <;> first | rfl | trivial | assumption
+      | true =>
+        obtain ⟨c1, f1⟩ := r1
+        obtain rfl : f1 = .normal := isNormal_eq hn
+        simp only at l1
+        simp only [Flow.isNormal, Bool.not_true, Bool.false_eq_true, ↓reduceIte] at h
+        simp only [absB_st, l1]
+        by_cases hc : c1 = 0
+        · simp only [hc, ↓reduceIte] at h ⊢
+          split at h
+          · simp at h
+          · rename_i s2 r2 he2
+            obtain ⟨e2, ok2, l2⟩ := ihE fs sup thn s1 s2 r2 d L hfs hws.2 hdL he2
+            simp only [e2]
+            simp only [Option.some.injEq] at h
+            obtain ⟨e, ok, l⟩ := postC_spec' h l2 L d ok2
+            exact ⟨congrArg some e, ok, l⟩
+        · simp only [hc, ↓reduceIte, absB_normal_pending, Bool.false_eq_true, absB_setLast] at h ⊢
+          simp only [Option.some.injEq] at h
+          obtain ⟨e, ok, l⟩ := postC_spec h L d trivial
+          exact ⟨congrArg some e, ok, l⟩
+  | if2 cond thn els =>
+    simp only [viol, List.append_eq_nil_iff] at hws
+    simp only [exec] at h
+    split at h
+    · simp at h
+    · rename_i s1 r1 he
+      obtain ⟨e1, ok1, l1⟩ := ihE fs true cond s s1 r1 d L hfs hws.1.1 hdL he
+      simp only [spec, absB_normal_pending, Bool.false_eq_true, ↓reduceIte, e1]
+      cases hn : r1.flow.isNormal with
+      | false =>
+        simp only [hn, Bool.not_false, ↓reduceIte] at h
+        rw [postC, last_eta s1 _ l1] at h
+        simp only [Option.some.injEq, Prod.mk.injEq] at h
+        obtain ⟨rfl, rfl⟩ := h
+        have hp : (absB L s1 r1.flow).pending = true := by simp [hn]
+        simp only [spec_pending hp]
+        and_intros <;> first | rfl | trivial | assumption
+      | true =>
+        obtain ⟨c1, f1⟩ := r1
+        obtain rfl : f1 = .normal := isNormal_eq hn
+        simp only at l1
+        simp only [Flow.isNormal, Bool.not_true, Bool.false_eq_true, ↓reduceIte] at h
+        simp only [absB_st, l1]
+        have hbr : viol d (if c1 = 0 then thn else els) = [] := by
+          split
+          · exact hws.1.2
+          · exact hws.2
+        split at h
+        · simp at h
+        · rename_i s2 r2 he2
+          obtain ⟨e2, ok2, l2⟩ := ihE fs sup _ s1 s2 r2 d L hfs hbr hdL he2
+          simp only [e2]
+          simp only [Option.some.injEq] at h
+          obtain ⟨e, ok, l⟩ := postC_spec' h l2 L d ok2
+          exact ⟨congrArg some e, ok, l⟩
+  | whileU isUntil cond body =>
+    simp only [viol, List.append_eq_nil_iff] at hws
+    simp only [exec] at h
+    split at h
+    · simp at h
+    · rename_i s1 r1 he
+      obtain ⟨e1, ok1⟩ := ihW fs sup isUntil cond body s s1 _ r1 d L hfs hws.1 hws.2 hdL rfl he
+      simp only [spec, absB_normal_pending, Bool.false_eq_true, ↓reduceIte]
+      erw [e1]
+      simp only [Option.some.injEq] at h
+      obtain ⟨e, ok, l⟩ := postC_spec h L d ok1
+      exact ⟨congrArg some e, ok, l⟩
+  | forIn n body =>
+    simp only [viol] at hws
+    simp only [exec] at h
+    split at h
+    · simp at h
+    · rename_i s1 r1 he
+      obtain ⟨e1, ok1⟩ := ihF fs sup n body s s1 _ r1 d L hfs hws hdL rfl he
+      simp only [spec, absB_normal_pending, Bool.false_eq_true, ↓reduceIte]
+      erw [e1]
+      simp only [Option.some.injEq] at h
+      obtain ⟨e, ok, l⟩ := postC_spec h L d ok1
+      exact ⟨congrArg some e, ok, l⟩
+  | case arms =>
+    simp only [viol] at hws
+    simp only [exec] at h
+    split at h
+    · simp at h
+    · rename_i s1 r1 he
+      obtain ⟨e1, ok1⟩ := ihC fs sup arms false s s1 _ r1 d L hfs hws hdL rfl he
+      simp only [spec, absB_normal_pending, Bool.false_eq_true, ↓reduceIte]
+      erw [e1]
+      simp only [Option.some.injEq] at h
+      obtain ⟨e, ok, l⟩ := postC_spec h L d ok1
+      exact ⟨congrArg some e, ok, l⟩
+  | group c =>
+    simp only [viol] at hws
+    simp only [exec] at h
+    split at h
+    · simp at h
+    · rename_i s1 r1 he
+      obtain ⟨e1, ok1, l1⟩ := ihE fs sup c s s1 r1 d L hfs hws hdL he
+      simp only [spec, absB_normal_pending, Bool.false_eq_true, ↓reduceIte, e1]
+      simp only [Option.some.injEq] at h
+      obtain ⟨e, ok, l⟩ := postC_spec' h l1 L d ok1
+      exact ⟨congrArg some e, ok, l⟩
+  | subshell c =>
+    simp only [viol] at hws
+    simp only [exec] at h
+    split at h
+    · simp at h
+    · rename_i s1 r1 he
+      obtain ⟨e1, ok1, l1⟩ := ihE fs sup c s s1 r1 0 0 hfs hws (Nat.le_refl 0) he
+      simp only [spec, absB_normal_pending, Bool.false_eq_true, ↓reduceIte]
+      erw [e1]
+      simp only [Option.some.injEq] at h
+      obtain ⟨e, ok, l⟩ := post_spec h L d trivial
+      simp only [absB_st, l1]
+      exact ⟨congrArg some e, ok, l⟩
+  | call f =>
+    simp only [exec] at h
+    simp only [spec, absB_normal_pending, Bool.false_eq_true, ↓reduceIte]
+    cases hf : fs[f]? with
+    | none =>
+      simp only [hf, Option.some.injEq] at h ⊢
+      obtain ⟨e, ok, l⟩ := post_spec h L d trivial
+      exact ⟨e, ok, l⟩
+    | some body =>
+      simp only [hf] at h ⊢
+      have hb := ws_of_mem hfs hf
+      split at h
+      · simp at h
+      · rename_i s1 r1 he
+        obtain ⟨e1, ok1, l1⟩ := ihE fs sup body _ s1 r1 0 0 hfs hb (Nat.le_refl 0) he
+        erw [e1]
+        obtain ⟨c1, f1⟩ := r1
+        simp only at l1
+        have l2 : ({ s1 with fdepth := s1.fdepth - 1 } : St).last = c1 := l1
+        cases f1 with
+        | brk k => simp [okFlow] at ok1
+        | cont k => simp [okFlow] at ok1
+        | ret =>
+          simp only [Option.some.injEq] at h
+          obtain ⟨e, ok, l⟩ := post_spec' h l2 L d trivial
+          exact ⟨congrArg some e, ok, l⟩
+        | normal =>
+          simp only [Option.some.injEq] at h
+          obtain ⟨e, ok, l⟩ := post_spec' h l2 L d trivial
+          exact ⟨congrArg some e, ok, l⟩
+        | exit =>
+          simp only [Option.some.injEq] at h
+          obtain ⟨e, ok, l⟩ := post_spec' h l2 L d trivial
+          exact ⟨congrArg some e, ok, l⟩
+  | brk n =>
+    simp only [viol] at hws
+    obtain ⟨hpos, hle⟩ := jumpViol_ok hws
+    have hL : L ≠ 0 := by omega
+    simp only [exec, Int.not_le.mpr hpos, ↓reduceIte, Option.some.injEq] at h
+    rw [post_not_normal rfl] at h
+    simp only [Prod.mk.injEq] at h
+    obtain ⟨rfl, rfl⟩ := h
+    simp only [spec, absB_normal_pending, Bool.false_eq_true, ↓reduceIte, absB_level, hL,
+      Int.not_le.mpr hpos, absB_setLast]
+    have hm : min (n.getD 1).toNat L = ((n.getD 1) - 1).toNat + 1 := by omega
+    rw [hm]
+    and_intros
+    · rfl
+    · simp only [okFlow]; omega
+    all_goals trivial
+  | cont n =>
+    simp only [viol] at hws
+    obtain ⟨hpos, hle⟩ := jumpViol_ok hws
+    have hL : L ≠ 0 := by omega
+    simp only [exec, Int.not_le.mpr hpos, ↓reduceIte, Option.some.injEq] at h
+    rw [post_not_normal rfl] at h
+    simp only [Prod.mk.injEq] at h
+    obtain ⟨rfl, rfl⟩ := h
+    simp only [spec, absB_normal_pending, Bool.false_eq_true, ↓reduceIte, absB_level, hL,
+      Int.not_le.mpr hpos, absB_setLast]
+    have hm : min (n.getD 1).toNat L = ((n.getD 1) - 1).toNat + 1 := by omega
+    rw [hm]
+    and_intros
+    · rfl
+    · simp only [okFlow]; omega
+    all_goals trivial
+  | ret code =>
+    cases code <;>
+    · simp only [exec] at h
+      simp only [spec, absB_normal_pending, Bool.false_eq_true, ↓reduceIte, absB_st, absB_setLast]
+      by_cases hd : s.fdepth > 0
+      · simp only [hd, ↓reduceIte, Option.some.injEq] at h ⊢
+        rw [post_not_normal rfl] at h
+        simp only [Prod.mk.injEq] at h
+        obtain ⟨rfl, rfl⟩ := h
+        and_intros <;> first | rfl | trivial
+      · simp only [hd, ↓reduceIte, Option.some.injEq] at h ⊢
+        obtain ⟨e, ok, l⟩ := post_spec h L d trivial
+        exact ⟨e, ok, l⟩
+  | exit code =>
+    cases code <;>
+    · simp only [exec, Option.some.injEq] at h
+      simp only [spec, absB_normal_pending, Bool.false_eq_true, ↓reduceIte, absB_st, absB_setLast]
+      rw [post_not_normal rfl] at h
+      simp only [Prod.mk.injEq] at h
+      obtain ⟨rfl, rfl⟩ := h
+      and_intros <;> first | rfl | trivial
+  | setE on =>
+    simp only [exec, Option.some.injEq] at h
+    simp only [spec, absB_normal_pending, Bool.false_eq_true, ↓reduceIte]
+    obtain ⟨e, ok, l⟩ := post_spec h L d trivial
+    refine ⟨congrArg some ?_, ok, l⟩
+    rw [← e, errexitCheck_zero _ _ rfl]
+    rfl
+
+@[simp] theorem brk_beq_ret (k : Nat) : (Flow.brk k == Flow.ret) = false := by
+  apply beq_false_of_ne; intro h; cases h
+@[simp] theorem brk_beq_exit (k : Nat) : (Flow.brk k == Flow.exit) = false := by
+  apply beq_false_of_ne; intro h; cases h
+@[simp] theorem cont_beq_ret (k : Nat) : (Flow.cont k == Flow.ret) = false := by
+  apply beq_false_of_ne; intro h; cases h
+@[simp] theorem cont_beq_exit (k : Nat) : (Flow.cont k == Flow.exit) = false := by
+  apply beq_false_of_ne; intro h; cases h
+@[simp] theorem normal_beq_ret : (Flow.normal == Flow.ret) = false := by decide
+@[simp] theorem normal_beq_exit : (Flow.normal == Flow.exit) = false := by decide
+
+theorem afterBody_abs (M : Nat) (s : St) (f : Flow) :
+    afterBody (absB M s f) = (absB M s f.dec, f.isRetOrExit || f.isBreak || f.dec.isCont) := by
+  cases f with
+  | brk k => cases k <;> simp [afterBody, absB, brkOf, contOf, Flow.dec, Flow.isRetOrExit, Flow.isBreak, Flow.isCont, B.jumping]
+  | cont k => cases k <;> simp [afterBody, absB, brkOf, contOf, Flow.dec, Flow.isRetOrExit, Flow.isBreak, Flow.isCont, B.jumping]
+  | _ => simp [afterBody, absB, brkOf, contOf, Flow.dec, Flow.isRetOrExit, Flow.isBreak, Flow.isCont, B.jumping]
+
+theorem dec_retOrExit {f : Flow} (h : f.isRetOrExit = true) : f.dec = f := by
+  cases f <;> simp_all [Flow.isRetOrExit, Flow.dec]
+
+theorem okFlow_dec {d : Nat} {f : Flow} (h : okFlow (d + 1) f) : okFlow d f.dec := by
+  cases f with
+  | brk k => cases k <;> simp_all [okFlow, Flow.dec]
+  | cont k => cases k <;> simp_all [okFlow, Flow.dec]
+  | _ => simp_all [okFlow, Flow.dec]
+
+/-- after the body: when neither a jump nor a break/outer-continue is pending, the decremented flow is normal -/
+theorem dec_normal_of_continue {f : Flow} (h1 : f.isRetOrExit = false)
+    (h2 : (f.isBreak || f.dec.isCont) = false) : f.dec = .normal := by
+  cases f with
+  | brk k => simp [Flow.isBreak] at h2
+  | cont k => cases k <;> simp_all [Flow.dec, Flow.isCont, Flow.isBreak]
+  | normal => rfl
+  | ret => simp [Flow.isRetOrExit] at h1
+  | exit => simp [Flow.isRetOrExit] at h1
+
+theorem step_W (fuel : Nat) (ihE : PExec fuel) (ihW : PW fuel) : PW (fuel + 1) := by
+  intro fs sup isUntil cond body s s' r r' d L hfs hc hb hdL hr h
+  simp only [loopW] at h
+  split at h
+  · simp at h
+  · rename_i s1 rc he
+    obtain ⟨e1, ok1, l1⟩ := ihE fs true cond s s1 rc 0 (L + 1) hfs hc (Nat.zero_le _) he
+    rw [last_eta s1 rc.code l1] at h
+    simp only [specW, absB_normal_pending, Bool.false_eq_true, ↓reduceIte, e1, absB_jumping, absB_st]
+    cases hn : rc.flow.isNormal with
+    | false =>
+      have hj : rc.flow.isRetOrExit = true := by
+        revert ok1 hn; cases rc.flow <;> simp [okFlow, Flow.isNormal, Flow.isRetOrExit]
+      simp only [hn, Bool.not_false, ↓reduceIte, Option.some.injEq, Prod.mk.injEq] at h
+      obtain ⟨rfl, rfl⟩ := h
+      simp only [hj, ↓reduceIte, dec_retOrExit hj, last_eta s1 rc.code l1]
+      refine ⟨trivial, ?_⟩
+      revert hj; cases rc.flow <;> simp [okFlow, Flow.isRetOrExit]
+    | true =>
+      have hf := isNormal_eq hn
+      simp only [hn, Bool.not_true, Bool.false_eq_true, ↓reduceIte] at h
+      simp only [hf, Flow.isRetOrExit, Bool.false_eq_true, ↓reduceIte, l1]
+      by_cases hcond : (rc.code = 0) = (isUntil = true)
+      · rw [if_pos hcond] at h ⊢
+        simp only [Option.some.injEq, Prod.mk.injEq] at h
+        obtain ⟨rfl, rfl⟩ := h
+        rw [hr]
+        exact ⟨rfl, trivial⟩
+      · rw [if_neg hcond] at h ⊢
+        split at h
+        · simp at h
+        · rename_i s2 rb he2
+          obtain ⟨e2, ok2, l2⟩ := ihE fs sup body s1 s2 rb (d + 1) (L + 1) hfs hb (by omega) he2
+          rw [e2]
+          simp only [afterBody_abs]
+          cases hj : rb.flow.isRetOrExit with
+          | true =>
+            simp only [hj, ↓reduceIte, Option.some.injEq, Prod.mk.injEq] at h
+            obtain ⟨rfl, rfl⟩ := h
+            simp only [Bool.true_or, ↓reduceIte, dec_retOrExit hj, last_eta s2 rb.code l2]
+            refine ⟨trivial, ?_⟩
+            revert hj; cases rb.flow <;> simp [okFlow, Flow.isRetOrExit]
+          | false =>
+            simp only [hj, Bool.false_eq_true, ↓reduceIte, Bool.false_or] at h ⊢
+            cases hs : (rb.flow.isBreak || rb.flow.dec.isCont) with
+            | true =>
+              simp only [hs, ↓reduceIte, Option.some.injEq, Prod.mk.injEq] at h
+              obtain ⟨rfl, rfl⟩ := h
+              simp only [↓reduceIte, last_eta s2 rb.code l2]
+              exact ⟨trivial, okFlow_dec ok2⟩
+            | false =>
+              simp only [hs, Bool.false_eq_true, ↓reduceIte] at h
+              have hdn := dec_normal_of_continue hj hs
+              simp only [Bool.false_eq_true, ↓reduceIte, absB_st, l2, hdn]
+              exact ihW fs sup isUntil cond body s2 s' ⟨rb.code, rb.flow.dec⟩ r' d L hfs hc hb hdL hdn h
+
+theorem step_F (fuel : Nat) (ihE : PExec fuel) (ihF : PF fuel) : PF (fuel + 1) := by
+  intro fs sup n body s s' r r' d L hfs hb hdL hr h
+  cases n with
+  | zero =>
+    simp only [loopF, Option.some.injEq, Prod.mk.injEq] at h
+    obtain ⟨rfl, rfl⟩ := h
+    simp only [specF, absB_normal_pending, Bool.false_eq_true, ↓reduceIte, absB_setLast, hr]
+    and_intros <;> first | rfl | trivial
+  | succ n =>
+    simp only [loopF] at h
+    simp only [specF, absB_normal_pending, Bool.false_eq_true, ↓reduceIte]
+    split at h
+    · simp at h
+    · rename_i s2 rb he2
+      obtain ⟨e2, ok2, l2⟩ := ihE fs sup body s s2 rb (d + 1) (L + 1) hfs hb (by omega) he2
+      rw [e2]
+      simp only [afterBody_abs]
+      cases hj : rb.flow.isRetOrExit with
+      | true =>
+        simp only [hj, ↓reduceIte, Option.some.injEq, Prod.mk.injEq] at h
+        obtain ⟨rfl, rfl⟩ := h
+        simp only [Bool.true_or, ↓reduceIte, dec_retOrExit hj, last_eta s2 rb.code l2]
+        refine ⟨trivial, ?_⟩
+        revert hj; cases rb.flow <;> simp [okFlow, Flow.isRetOrExit]
+      | false =>
+        simp only [hj, Bool.false_eq_true, ↓reduceIte, Bool.false_or] at h ⊢
+        cases hs : (rb.flow.isBreak || rb.flow.dec.isCont) with
+        | true =>
+          simp only [hs, ↓reduceIte, Option.some.injEq, Prod.mk.injEq] at h
+          obtain ⟨rfl, rfl⟩ := h
+          simp only [↓reduceIte, last_eta s2 rb.code l2]
+          exact ⟨trivial, okFlow_dec ok2⟩
+        | false =>
+          simp only [hs, Bool.false_eq_true, ↓reduceIte] at h
+          have hdn := dec_normal_of_continue hj hs
+          simp only [Bool.false_eq_true, ↓reduceIte, absB_st, l2, hdn]
+          exact ihF fs sup n body s2 s' ⟨rb.code, rb.flow.dec⟩ r' d L hfs hb hdL hdn h
+
+theorem step_Arms (fuel : Nat) (ihE : PExec fuel) (ihC : PArms fuel) : PArms (fuel + 1) := by
+  intro fs sup arms force s s' r r' d L hfs hws hdL hr h
+  cases arms with
+  | nil =>
+    simp only [execArms, Option.some.injEq, Prod.mk.injEq] at h
+    obtain ⟨rfl, rfl⟩ := h
+    simp only [specArms, absB_normal_pending, Bool.false_eq_true, ↓reduceIte, absB_setLast, hr]
+    and_intros <;> first | rfl | trivial
+  | cons m body t rest =>
+    simp only [violArms, List.append_eq_nil_iff] at hws
+    simp only [execArms] at h
+    simp only [specArms, absB_normal_pending, Bool.false_eq_true, ↓reduceIte]
+    by_cases hskip : (!force && !m) = true
+    · rw [if_pos hskip] at h ⊢
+      exact ihC fs sup rest false s s' r r' d L hfs hws.2 hdL hr h
+    · rw [if_neg hskip] at h ⊢
+      split at h
+      · simp at h
+      · rename_i s1 r1 he
+        obtain ⟨e1, ok1, l1⟩ := ihE fs sup body s s1 r1 d L hfs hws.1 hdL he
+        rw [e1]
+        simp only [absB_st, l1]
+        cases hn : r1.flow.isNormal with
+        | false =>
+          simp only [hn, Bool.not_false, ↓reduceIte, Option.some.injEq, Prod.mk.injEq] at h
+          obtain ⟨rfl, rfl⟩ := h
+          have hp : (absB L s1 r1.flow).pending = true := by simp [hn]
+          rw [last_eta s1 r1.code l1]
+          refine ⟨?_, ok1⟩
+          cases t <;> simp only [specArms_pending hp]
+        | true =>
+          have hf := isNormal_eq hn
+          simp only [hn, Bool.not_true, Bool.false_eq_true, ↓reduceIte] at h
+          cases t with
+          | exitCase =>
+            simp only [Option.some.injEq, Prod.mk.injEq] at h
+            obtain ⟨rfl, rfl⟩ := h
+            rw [last_eta s1 r1.code l1]
+            exact ⟨rfl, ok1⟩
+          | fallThrough =>
+            simp only at h ⊢
+            rw [hf]
+            exact ihC fs sup rest true s1 s' r1 r' d L hfs hws.2 hdL hf h
+          | contTest =>
+            simp only at h ⊢
+            rw [hf]
+            exact ihC fs sup rest false s1 s' r1 r' d L hfs hws.2 hdL hf h
+
+theorem step_AO (fuel : Nat) (ihE : PExec fuel) (ihA : PAO fuel) : PAO (fuel + 1) := by
+  intro fs sup aos s s' r r' d L hfs hws hdL hl hok h
+  cases aos with
+  | nil =>
+    simp only [execAO, Option.some.injEq, Prod.mk.injEq] at h
+    obtain ⟨rfl, rfl⟩ := h
+    refine ⟨?_, hok, hl⟩
+    rw [specAO.eq_def]
+    simp only [absB_pending]
+    split <;> rfl
+  | cons isAnd c rest =>
+    simp only [violAO, List.append_eq_nil_iff] at hws
+    cases hn : r.flow.isNormal with
+    | false =>
+      cases rest <;>
+      · simp only [execAO, hn, Bool.not_false, ↓reduceIte, Option.some.injEq, Prod.mk.injEq] at h
+        obtain ⟨rfl, rfl⟩ := h
+        exact ⟨specAO_pending (by simp [hn]), hok, hl⟩
+    | true =>
+      have hf := isNormal_eq hn
+      rw [hf]
+      cases rest <;>
+      · simp only [execAO, hn, Bool.not_true, Bool.false_eq_true, ↓reduceIte] at h
+        simp only [specAO, absB_normal_pending, Bool.false_eq_true, ↓reduceIte, absB_st, hl, Bool.not_true]
+        split at h
+        · rw [if_pos (by assumption)]
+          rw [← hf]
+          exact ihA fs sup _ s s' r r' d L hfs (by first | exact hws.2 | rfl) hdL hl hok h
+        · rw [if_neg (by assumption)]
+          split at h
+          · simp at h
+          · rename_i s1 r1 he
+            obtain ⟨e1, ok1, l1⟩ := ihE fs _ c s s1 r1 d L hfs hws.1 hdL he
+            simp only [e1]
+            exact ihA fs sup _ s1 s' r1 r' d L hfs (by first | exact hws.2 | rfl) hdL l1 ok1 h
+
+theorem refines_all (fuel : Nat) : PExec fuel ∧ PList fuel ∧ PAO fuel ∧ PW fuel ∧ PF fuel ∧ PArms fuel := by
+  induction fuel with
+  | zero =>
+    refine ⟨?_, ?_, ?_, ?_, ?_, ?_⟩
+    · intro fs sup c s s' r d L _ _ _ h; simp [exec] at h
+    · intro fs sup cs s s' r d L _ _ _ h; simp [execList] at h
+    · intro fs sup aos s s' r r' d L _ _ _ _ _ h; simp [execAO] at h
+    · intro fs sup isUntil cond body s s' r r' d L _ _ _ _ _ h; simp [loopW] at h
+    · intro fs sup n body s s' r r' d L _ _ _ _ h; simp [loopF] at h
+    · intro fs sup arms force s s' r r' d L _ _ _ _ h; simp [execArms] at h
+  | succ fuel ih =>
+    obtain ⟨ihE, ihL, ihA, ihW, ihF, ihC⟩ := ih
+    exact ⟨step_exec fuel ihE ihL ihA ihW ihF ihC, step_list fuel ihE ihL, step_AO fuel ihE ihA,
+      step_W fuel ihE ihW, step_F fuel ihE ihF, step_Arms fuel ihE ihC⟩
+
+theorem viol_nil_of_ws {d : Nat} {c : Cmd} (h : ws d c = true) : viol d c = [] :=
+  List.isEmpty_iff.mp h
+
+/-- **Main theorem.**  On well-scoped programs every terminating run of brush's result-value
+interpreter is matched step for step by bash's global-counter semantics. -/
+theorem exec_refines (fuel : Nat) :
+    (∀ fs sup c s s' r d, okFuncs fs → ws d c = true → exec fuel fs sup c s = some (s', r) →
+        spec fuel fs sup c (absB d s .normal) = some (absB d s' r.flow) ∧ okFlow d r.flow ∧ s'.last = r.code) ∧
+    (∀ fs sup cs s s' r d, okFuncs fs → (violList d cs).isEmpty = true →
+        execList fuel fs sup cs s = some (s', r) →
+        specList fuel fs sup cs (absB d s .normal) = some (absB d s' r.flow) ∧ okFlow d r.flow ∧
+          s'.last = r.code) ∧
+    (∀ fs sup aos s s' r r' d, okFuncs fs → (violAO d aos).isEmpty = true →
+        s.last = r.code → okFlow d r.flow →
+        execAO fuel fs sup aos s r = some (s', r') →
+        specAO fuel fs sup aos (absB d s r.flow) = some (absB d s' r'.flow) ∧ okFlow d r'.flow ∧
+          s'.last = r'.code) ∧
+    (∀ fs sup isUntil cond body s s' r r' d, okFuncs fs → (viol 0 cond).isEmpty = true →
+        (viol (d + 1) body).isEmpty = true → r.flow = .normal →
+        loopW fuel fs sup isUntil cond body s r = some (s', r') →
+        specW fuel fs sup isUntil cond body (absB (d + 1) s .normal) r.code
+            = some (absB (d + 1) { s' with last := r'.code } r'.flow) ∧ okFlow d r'.flow) ∧
+    (∀ fs sup n body s s' r r' d, okFuncs fs → (viol (d + 1) body).isEmpty = true → r.flow = .normal →
+        loopF fuel fs sup n body s r = some (s', r') →
+        specF fuel fs sup n body (absB (d + 1) s .normal) r.code
+            = some (absB (d + 1) { s' with last := r'.code } r'.flow) ∧ okFlow d r'.flow) ∧
+    (∀ fs sup arms force s s' r r' d, okFuncs fs → (violArms d arms).isEmpty = true → r.flow = .normal →
+        execArms fuel fs sup arms force s r = some (s', r') →
+        specArms fuel fs sup arms force (absB d s .normal) r.code
+            = some (absB d { s' with last := r'.code } r'.flow) ∧ okFlow d r'.flow) := by
+  obtain ⟨hE, hL, hA, hW, hF, hC⟩ := refines_all fuel
+  refine ⟨?_, ?_, ?_, ?_, ?_, ?_⟩
+  · intro fs sup c s s' r d hfs hws h
+    exact hE fs sup c s s' r d d hfs (viol_nil_of_ws hws) (Nat.le_refl d) h
+  · intro fs sup cs s s' r d hfs hws h
+    exact hL fs sup cs s s' r d d hfs (List.isEmpty_iff.mp hws) (Nat.le_refl d) h
+  · intro fs sup aos s s' r r' d hfs hws hl hok h
+    exact hA fs sup aos s s' r r' d d hfs (List.isEmpty_iff.mp hws) (Nat.le_refl d) hl hok h
+  · intro fs sup isUntil cond body s s' r r' d hfs hc hb hr h
+    exact hW fs sup isUntil cond body s s' r r' d d hfs (List.isEmpty_iff.mp hc) (List.isEmpty_iff.mp hb)
+      (Nat.le_refl d) hr h
+  · intro fs sup n body s s' r r' d hfs hb hr h
+    exact hF fs sup n body s s' r r' d d hfs (List.isEmpty_iff.mp hb) (Nat.le_refl d) hr h
+  · intro fs sup arms force s s' r r' d hfs hws hr h
+    exact hC fs sup arms force s s' r r' d d hfs (List.isEmpty_iff.mp hws) (Nat.le_refl d) hr h
+
+
 end BrushVerif.FlowRefine
